@@ -1,11 +1,13 @@
 use mmsim::sut::*;
 fn main() {
+    mmsim::sut::maybe_act_as_cli_subprocess();
+    mmsim::sut::init_cli_env();
     mmsim::util::install_counting_logger();
     let src = std::fs::read_to_string(std::env::args().nth(1).unwrap()).unwrap();
     let src2 = std::env::args().nth(2).map(|p| std::fs::read_to_string(p).unwrap()).unwrap_or(src.clone());
     let n: u64 = std::env::args().nth(3).map(|s| s.parse().unwrap()).unwrap_or(8);
     let opts = SutOptions { with_scheduler: true, sample_rate: 48000 };
-    for b in [Backend::Vm, Backend::WasmP2, Backend::WasmP3] {
+    for b in [Backend::Vm, Backend::VmCli, Backend::WasmP2, Backend::WasmCli] {
         let mut s = match Sut::start(b, &src, None, &opts, RetireMode::Present) { Ok(s) => s, Err(e) => { println!("{:?} start failed: {e}", b); continue; } };
         let mut out = vec![];
         let nin = s.io.input as usize;
